@@ -151,6 +151,13 @@ func (c *Check) RunControls(pre <-chan fixtureLoad) {
 	for _, v := range []struct {
 		f   string
 		bad bool
+	}{{"UseAfterReleaseGood", false}, {"UseAfterReleaseBad", true}} {
+		v := v
+		run("USEAFTERRELEASE", v.bad, func(sub *Check) { sub.NotUsedAfterRelease("OWNERSHIP", v.f, []*ssa.Function{fn(v.f)}) })
+	}
+	for _, v := range []struct {
+		f   string
+		bad bool
 	}{{"SweepGood", false}, {"SweepBad", true}} {
 		v := v
 		run("MUSTEXEC", v.bad, func(sub *Check) {
